@@ -273,6 +273,7 @@ pub struct Scen {
 	pub src_comp: TileCompression,
 	pub dst_comp: Option<TileCompression>,
 	pub format: TileFormat,
+	pub force: bool,
 }
 
 fn payload(c: &C) -> Vec<u8> {
@@ -289,7 +290,7 @@ impl Scen {
 		MemSource::new("c06", self.format, self.src_comp, tiles).with_pyramid(self.cover.clone())
 	}
 	pub fn params(&self) -> TilesConverterParameters {
-		TilesConverterParameters::new(self.dst_comp, self.req.clone(), false, self.f, self.s)
+		TilesConverterParameters::new(self.dst_comp, self.req.clone(), self.force, self.f, self.s)
 	}
 	pub fn out_comp(&self) -> TileCompression {
 		self.dst_comp.unwrap_or(self.src_comp)
@@ -370,7 +371,7 @@ fn do_cover(out: &mut Out, sc: &Scen) -> Option<TileBBoxPyramid> {
 
 fn do_look(out: &mut Out, ctx: &Ctx, sc: &Scen, c: C) -> Option<Option<String>> {
 	let r = catch(|| {
-		let rd = TilesConvertReader::new_from_reader(sc.source().boxed(), TilesConverterParameters::new(sc.dst_comp, None, false, sc.f, sc.s))?;
+		let rd = TilesConvertReader::new_from_reader(sc.source().boxed(), TilesConverterParameters::new(sc.dst_comp, None, sc.force, sc.f, sc.s))?;
 		let coord = TileCoord3::new(c.0, c.1, c.2)?;
 		ctx.rt.block_on(rd.get_tile_data(&coord))
 	});
@@ -385,7 +386,7 @@ fn do_look(out: &mut Out, ctx: &Ctx, sc: &Scen, c: C) -> Option<Option<String>> 
 
 fn do_stream(out: &mut Out, ctx: &Ctx, sc: &Scen, b: &TileBBox) -> Option<Vec<(C, String)>> {
 	let r = catch(|| {
-		let rd = TilesConvertReader::new_from_reader(sc.source().boxed(), TilesConverterParameters::new(sc.dst_comp, None, false, sc.f, sc.s))?;
+		let rd = TilesConvertReader::new_from_reader(sc.source().boxed(), TilesConverterParameters::new(sc.dst_comp, None, sc.force, sc.f, sc.s))?;
 		Ok(ctx.rt.block_on(async { rd.get_bbox_tile_stream(b.clone()).await.collect().await }))
 	});
 	let val: Option<Vec<(C, String)>> = match &r {
@@ -674,6 +675,241 @@ fn fault_run(out: &mut Out, ctx: &mut Ctx, spec: FaultSpec) {
 	}
 }
 
+// ---------------------------------------------------------------------------------------------
+// class 8 (extreme coordinates): zoom 0/1/30/31, requested boxes touching 0 and 2^z-1, borders that
+// push a box over the level edge, geographic boxes exactly at ±180 / ±85.0511…
+// ---------------------------------------------------------------------------------------------
+const MERC: f64 = 85.05112877980659;
+fn edge_sweep(out: &mut Out, ctx: &mut Ctx, rng: &mut Rng, thorough: bool) {
+	let geos: Vec<[f64; 4]> = vec![
+		[-180.0, -90.0, 180.0, 90.0],
+		[-180.0, -MERC, 180.0, MERC],
+		[-180.0, -MERC, -180.0, MERC],  // west edge line
+		[180.0, -MERC, 180.0, MERC],    // east edge line
+		[-180.0, MERC, 180.0, MERC],    // north edge line
+		[-180.0, -MERC, 180.0, -MERC],  // south edge line
+		[-180.0, MERC, -180.0, MERC],   // corner points
+		[180.0, -MERC, 180.0, -MERC],
+		[179.9999999, -MERC, 180.0, -85.0],
+		[-180.0, 85.0, -179.9999999, 90.0],
+		[0.0, 0.0, 0.0, 0.0],
+	];
+	let borders: [Option<u32>; 5] = [None, Some(0), Some(1), Some(3), Some(1 << 31)];
+	for z in [0u8, 1, 2, 30, 31] {
+		for (gi, g) in geos.iter().enumerate() {
+			for (bi, b) in borders.iter().enumerate() {
+				if !thorough && (gi + bi + z as usize) % 3 != 0 {
+					continue;
+				}
+				let o = Opts { min_zoom: Some(z), max_zoom: Some(z), bbox: Some(*g), border: *b };
+				do_pyr(out, &o);
+				out.count("edge_sweep_options");
+			}
+		}
+	}
+	// conversions of corner tiles at the extreme levels under requested boxes that touch the level edges
+	for z in [0u8, 1, 30, 31] {
+		let m = ((1u64 << z) - 1) as u32;
+		let corners: Vec<C> = if z == 0 { vec![(0, 0, 0)] } else { vec![(0, 0, z), (m, m, z), (0, m, z), (m, 0, z)] };
+		for (k, corner) in corners.iter().enumerate() {
+			let fl = (k + z as usize) % 4;
+			let (f, s) = (fl & 1 == 1, fl & 2 == 2);
+			let near = |c: &C| -> Vec<C> {
+				let mut v = vec![*c];
+				if z >= 1 {
+					v.push((if c.0 == 0 { 1 } else { c.0 - 1 }, c.1, z));
+					v.push((c.0, if c.1 == 0 { 1 } else { c.1 - 1 }, z));
+				}
+				v.sort();
+				v.dedup();
+				v
+			};
+			let tiles = near(corner);
+			let mut cover = TileBBoxPyramid::new_empty();
+			for c in &tiles {
+				cover.include_coord(&TileCoord3::new(c.0, c.1, c.2).unwrap());
+			}
+			let img = t_fwd(f, s, *corner);
+			// requested: exactly the image corner tile, grown by a border that is clamped at the level edge
+			let mut req = TileBBoxPyramid::new_empty();
+			req.include_coord(&TileCoord3::new(img.0, img.1, img.2).unwrap());
+			let border = [0u32, 1, 2][k % 3];
+			req.add_border(border, border, border, border);
+			let sc = Scen { tiles, cover, f, s, req: Some(req), src_comp: COMPS[k % 3], dst_comp: None, format: TileFormat::JSON, force: false };
+			let target = if z == 31 && k % 2 == 0 { None } else { Some(TARGETS[(k + z as usize) % 5]) };
+			scenario(out, ctx, rng, &sc, None, target);
+			out.count("edge_sweep_scenarios");
+		}
+	}
+}
+
+// ---------------------------------------------------------------------------------------------
+// class 5 (pre-existing state): convert onto an existing (larger) output of every target format, convert
+// a container onto itself; class 3 (payload classes): 1 byte, duplicates, > 1000 B, > 32 KiB;
+// class 9: sources written by the independent encoders (PMTiles run lengths, padded versatiles blocks)
+// ---------------------------------------------------------------------------------------------
+/// decoded content of a container: level streams where the advertised level box is small (the default
+/// stream materialises every coordinate of the box), single lookups at the candidate coordinates always
+fn raw_tiles_at(ctx: &Ctx, path: &str, candidates: &[C]) -> anyhow::Result<BTreeMap<C, Vec<u8>>> {
+	ctx.rt.block_on(async {
+		let rd = get_reader(path).await?;
+		let par = rd.get_parameters().clone();
+		let mut m = BTreeMap::new();
+		for b in par.bbox_pyramid.iter_levels() {
+			if b.count_tiles() <= 5000 {
+				for (c, bl) in rd.get_bbox_tile_stream(b.clone()).await.collect().await {
+					m.insert((c.x, c.y, c.z), decompress(bl, &par.tile_compression)?.into_vec());
+				}
+			}
+		}
+		for c in candidates {
+			if let Some(bl) = rd.get_tile_data(&TileCoord3::new(c.0, c.1, c.2)?).await? {
+				m.insert(*c, decompress(bl, &par.tile_compression)?.into_vec());
+			}
+		}
+		Ok(m)
+	})
+}
+fn raw_tiles(ctx: &Ctx, path: &str) -> anyhow::Result<BTreeMap<C, Vec<u8>>> {
+	raw_tiles_at(ctx, path, &[])
+}
+
+fn mem_with(tiles: &BTreeMap<C, Vec<u8>>, format: TileFormat, comp: TileCompression) -> MemSource {
+	let blobs = tiles.iter().map(|(c, p)| (TileCoord3::new(c.0, c.1, c.2).unwrap(), compress(Blob::from(p.clone()), &comp).unwrap())).collect();
+	MemSource::new("c06x", format, comp, blobs)
+}
+
+#[allow(clippy::too_many_arguments)]
+fn reuse_one(out: &mut Out, ctx: &mut Ctx, bin: &Option<PathBuf>, target: &str, format: TileFormat, comp: TileCompression, f: bool, s: bool, a: &BTreeMap<C, Vec<u8>>, b: &BTreeMap<C, Vec<u8>>, self_too: bool) {
+	let want: BTreeMap<C, Vec<u8>> = b.iter().map(|(c, p)| (t_fwd(f, s, *c), p.clone())).collect();
+	let path = target_path(ctx, target);
+	let line = format!("C06 reuse {target} {} A={} B={}", fs_str(f, s), tiles_str(&a.keys().cloned().collect::<Vec<C>>()), tiles_str(&b.keys().cloned().collect::<Vec<C>>()));
+	// 1. write A (untransformed), 2. convert B onto the same path
+	let first = catch(|| ctx.rt.block_on(convert_tiles_container(mem_with(&a, format, comp).boxed(), TilesConverterParameters::new_default(), &path)));
+	let second = catch(|| ctx.rt.block_on(convert_tiles_container(mem_with(&b, format, comp).boxed(), TilesConverterParameters::new(None, None, false, f, s), &path)));
+	let mut e: Option<(String, &str)> = None;
+	match (&first, &second) {
+		(Ok(Ok(())), Ok(Ok(()))) => match catch(|| raw_tiles_at(ctx, &path, &a.keys().cloned().chain(want.keys().cloned()).collect::<Vec<C>>())) {
+			Ok(Ok(got)) => {
+				if let Some(c) = got.keys().find(|c| !want.contains_key(*c)) {
+					e = Some((format!("after converting B onto an existing {target} output the container still holds {c:?}, a tile of the PREVIOUS content (not in the selection)"), "leftover_tile"));
+				} else if let Some((c, _)) = want.iter().find(|(c, p)| got.get(*c) != Some(*p)) {
+					e = Some((format!("output tile {c:?} is missing or carries a different payload (len {:?}, expected {})", got.get(c).map(|p| p.len()), want[c].len()), "payload"));
+				}
+			}
+			Ok(Err(err)) => e = Some((format!("output cannot be read back: {err:#}"), "unreadable")),
+			Err(p) => e = Some((format!("reader panicked: {p}"), "reader_panic")),
+		},
+		(Ok(Ok(())), Ok(Err(_))) => out.count("reuse_second_conversion_refused"),
+		(_, Err(p)) | (Err(p), _) => e = Some((format!("conversion panicked: {p}"), "panic")),
+		_ => e = Some(("first conversion failed".into(), "first_failed")),
+	}
+	out.eval(&line, true);
+	out.count(&format!("reuse_{target}"));
+	out.oracle(e.is_none(), &format!("C06 existing-output: {target}: {}", e.as_ref().map(|x| x.0.clone()).unwrap_or_default()), json!({"kind": "existing_output", "target": target, "what": e.as_ref().map(|x| x.1)}), json!({"case": line}));
+	// 3. a container converted onto itself (binary): must fail, or leave a container with exactly T(content)
+	if let (Some(bin), true) = (bin, target != "dir" && self_too) {
+		let before = catch(|| raw_tiles(ctx, &path)).ok().and_then(|r| r.ok());
+		if let Some(before) = before {
+			let mut a: Vec<String> = vec!["convert".into()];
+			if f {
+				a.push("--flip-y".into());
+			}
+			if s {
+				a.push("--swap-xy".into());
+			}
+			a.push(path.clone());
+			a.push(path.clone());
+			let (code, stderr) = run_bin(bin, &a);
+			let mut e: Option<String> = None;
+			if stderr.contains("panicked at") {
+				e = Some(format!("panicked: {}", trunc(stderr.lines().find(|l| l.contains("panicked")).unwrap_or(""), 160)));
+			} else if code == Some(0) {
+				let want: BTreeMap<C, Vec<u8>> = before.iter().map(|(c, p)| (t_fwd(f, s, *c), p.clone())).collect();
+				match catch(|| raw_tiles(ctx, &path)) {
+					Ok(Ok(got)) if got == want => {}
+					Ok(Ok(got)) => e = Some(format!("reports success but the container now holds {} tiles, expected the {} transformed tiles of its previous content", got.len(), want.len())),
+					_ => e = Some("reports success but the container can no longer be opened".into()),
+				}
+			}
+			out.eval(&format!("C06 self {target} {}", fs_str(f, s)), true);
+			out.count(if code == Some(0) { "self_conversion_success" } else { "self_conversion_refused" });
+			out.oracle(e.is_none(), &format!("C06 self-conversion: `versatiles {}` {}", a.join(" "), e.clone().unwrap_or_default()), json!({"kind": "self_conversion", "target": target}), json!({"case": line, "cmd": a.join(" ")}));
+		}
+	}
+	cleanup(&path);
+}
+
+fn reuse_and_payload_cases(out: &mut Out, ctx: &mut Ctx, rng: &mut Rng, n: usize) {
+	let bin = vth_bin();
+	for i in 0..n {
+		let (f, s) = (i & 1 == 1, i & 2 == 2);
+		let target = TARGETS[i % 5];
+		let (format, comp) = if target == "mbtiles" { (TileFormat::PBF, TileCompression::Gzip) } else { (TileFormat::JSON, *rng.pick(&COMPS)) };
+		// payload classes
+		let big: Vec<u8> = rng.bytes(40_000);
+		let mk = |rng: &mut Rng, tiles: &[C]| -> BTreeMap<C, Vec<u8>> {
+			tiles
+				.iter()
+				.map(|c| {
+					let p = match rng.below(6) {
+						0 => vec![b'x'],                               // 1 byte
+						1 => b"same payload".to_vec(),                  // duplicates (de-duplicated by the writers)
+						2 => format!("{c:?}").repeat(120).into_bytes(), // > 1000 bytes: not de-duplicated by hash
+						3 => b"y".repeat(1500),                         // duplicates above the de-dup threshold
+						4 => big.clone(),                               // > 32 KiB
+						_ => payload(c),
+					};
+					(*c, p)
+				})
+				.collect()
+		};
+		let a_tiles = gen_tiles(rng);
+		let b_tiles: Vec<C> = { let t = gen_tiles(rng); if t == a_tiles { vec![(1, 2, 3)] } else { t } };
+		let (a, b) = (mk(rng, &a_tiles), mk(rng, &b_tiles));
+		reuse_one(out, ctx, &bin, target, format, comp, f, s, &a, &b, i % 2 == 0);
+	}
+	// sources from the independent encoders through the converter
+	for i in 0..n.min(12) {
+		let (f, s) = (i & 1 == 1, i & 2 == 2);
+		let (map, _) = crate::c03::gen_runs(rng);
+		let kind = if i % 3 == 2 { "versatiles" } else { "pmtiles" };
+		let src_path = target_path(ctx, kind);
+		if kind == "pmtiles" {
+			let mut ch = crate::c16::gen_pm_choices(rng);
+			ch.merge_runs = true;
+			ch.tcomp = 1;
+			std::fs::write(&src_path, crate::indep_formats::encode_pmtiles(&map, &ch, rng).bytes).unwrap();
+		} else {
+			let mut ch = crate::c16::gen_vt_choices(rng);
+			ch.comp = crate::indep_formats::Comp::None; // the payloads of `gen_runs` are stored as they are
+			std::fs::write(&src_path, crate::indep_formats::encode_versatiles(&map, &ch, rng).bytes).unwrap();
+		}
+		let dst = target_path(ctx, "tar");
+		let want: BTreeMap<C, Vec<u8>> = map.iter().map(|((z, x, y), p)| (t_fwd(f, s, (*x, *y, *z)), p.clone())).collect();
+		let r = catch(|| {
+			ctx.rt.block_on(async {
+				let rd = get_reader(&src_path).await?;
+				convert_tiles_container(rd, TilesConverterParameters::new(Some(TileCompression::Gzip), None, false, f, s), &dst).await
+			})
+		});
+		let e = match r {
+			Ok(Ok(())) => match catch(|| raw_tiles_at(ctx, &dst, &want.keys().cloned().collect::<Vec<C>>())) {
+				Ok(Ok(got)) if got == want => None,
+				Ok(Ok(got)) => Some(format!("output has {} tiles, the T-image of the source has {}; first missing {:?}, first unexpected {:?}", got.len(), want.len(), want.keys().find(|c| !got.contains_key(*c)), got.keys().find(|c| !want.contains_key(*c)))),
+				_ => Some("output cannot be read back".to_string()),
+			},
+			Ok(Err(err)) => Some(format!("conversion failed: {err:#}")),
+			Err(p) => Some(format!("conversion panicked: {p}")),
+		};
+		out.eval(&format!("C06 indep-source {kind} {} {}", fs_str(f, s), map.len()), f || s);
+		out.count(&format!("indep_source_{kind}"));
+		out.oracle(e.is_none(), &format!("C06 indep-source: spec-valid {kind} source from the independent encoder: {}", e.clone().unwrap_or_default()), json!({"kind": "indep_source", "format": kind, "flip": f, "swap": s}), json!({"case": format!("indep {kind} {} tiles={}", fs_str(f, s), tiles_str(&map.keys().map(|(z, x, y)| (*x, *y, *z)).collect::<Vec<_>>())) }));
+		cleanup(&src_path);
+		cleanup(&dst);
+	}
+}
+
 const TARGETS: [&str; 5] = ["versatiles", "pmtiles", "tar", "mbtiles", "dir"];
 
 /// all tiles of a re-opened container: stream over every advertised level, checked against lookups
@@ -832,7 +1068,13 @@ fn do_walk(out: &mut Out, ctx: &mut Ctx, sc: &Scen, target: Option<&str>, sel: O
 	// real conversion into a container, re-opened with the real reader
 	if let Some(target) = target {
 		if cov.is_empty() {
-			return; // writers reject/abort on an empty pyramid; nothing to compare
+			// an empty selection: every writer must finish or fail with an error – never panic
+			let path = target_path(ctx, target);
+			let r = catch(|| ctx.rt.block_on(convert_tiles_container(sc.source().boxed(), sc.params(), &path)));
+			cleanup(&path);
+			out.count("empty_selection_conversions");
+			out.oracle(r.is_ok(), &format!("C06 conversion: convert_tiles_container → {target} with an empty selection panicked: {}", r.err().unwrap_or_default()), json!({"kind": "empty_selection_panic", "target": target}), json!({"case": line, "target": target}));
+			return;
 		}
 		let path = target_path(ctx, target);
 		let r = catch(|| ctx.rt.block_on(convert_tiles_container(sc.source().boxed(), sc.params(), &path)));
@@ -853,6 +1095,29 @@ fn do_walk(out: &mut Out, ctx: &mut Ctx, sc: &Scen, target: Option<&str>, sel: O
 							for (c, _) in &oitems {
 								if !in_b(&norm(ocov.get_level_bbox(c.2)), c.0, c.1) {
 									e = Some(format!("{target} output: tile {c:?} outside the output's advertised coverage"));
+								}
+							}
+						}
+						if e.is_none() {
+							// three views must agree: pyramid advertised by the converting reader ⊇ coverage written
+							// to the output (= it for versatiles, whose blocks are cut from it; = exact bounding box
+							// of the delivered tiles for the tile-derived formats) ⊇ delivered tiles
+							let delivered: Vec<C> = oitems.iter().map(|x| x.0).collect();
+							let mut exact: Vec<B> = vec![None; 32];
+							for &(x, y, z) in &delivered {
+								let q = &mut exact[z as usize];
+								*q = Some(match *q {
+									None => (x, y, x, y),
+									Some((a, b, c2, d)) => (a.min(x), b.min(y), c2.max(x), d.max(y)),
+								});
+							}
+							for z in 0..32usize {
+								let (o, a) = (norm(&ocov.level_bbox[z]), norm(&cov.level_bbox[z]));
+								let sub = |x: &B, y: &B| x.map_or(true, |(x0, y0, x1, y1)| in_b(y, x0, y0) && in_b(y, x1, y1));
+								let ok = if target == "versatiles" { o == a } else { o == exact[z] && sub(&o, &a) };
+								if !ok {
+									e = Some(format!("{target} output header advertises {o:?} at level {z}; the converting reader advertised {a:?}, the delivered tiles span {:?}", exact[z]));
+									break;
 								}
 							}
 						}
@@ -913,10 +1178,15 @@ fn gen_tiles(rng: &mut Rng) -> Vec<C> {
 		let m = (1u64 << z) - 1;
 		let w = rng.range(0, 5.min(m));
 		let h = rng.range(0, 5.min(m));
-		let (x0, y0) = match rng.below(5) {
+		let (x0, y0) = match rng.below(6) {
 			0 => (0, 0),
 			1 => (m - w, m - h),
 			2 => (0, m - h),
+			// straddling a 256-block border (versatiles / pmtiles writers cut the level into 256-grid cells)
+			3 if z >= 9 => {
+				let k = rng.range(1, (m + 1) / 256 - 1);
+				((k * 256).saturating_sub(rng.range(0, w)), (rng.range(1, (m + 1) / 256 - 1) * 256).saturating_sub(rng.range(0, h)))
+			}
 			_ => (rng.range(0, m - w), rng.range(0, m - h)),
 		};
 		let dens = rng.range(1, 4);
@@ -1100,7 +1370,8 @@ fn gen_scen(rng: &mut Rng, i: usize) -> (Scen, Option<Opts>) {
 	};
 	let src_comp = *rng.pick(&COMPS);
 	let dst_comp = if rng.chance(1, 2) { None } else { Some(*rng.pick(&COMPS)) };
-	(Scen { tiles, cover, f, s, req, src_comp, dst_comp, format: TileFormat::JSON }, opts)
+	let force = rng.chance(1, 3); // --force-recompress (also with an unchanged target compression)
+	(Scen { tiles, cover, f, s, req, src_comp, dst_comp, format: TileFormat::JSON, force }, opts)
 }
 
 fn do_pyr(out: &mut Out, o: &Opts) {
@@ -1247,8 +1518,19 @@ fn run_bin(bin: &Path, args: &[String]) -> (Option<i32>, String) {
 	}
 }
 
-/// `versatiles convert <opts> <flags> in.versatiles out.tar` vs. the in-process conversion with the
-/// transcribed option handling: same outcome class, same tiles.
+fn comp_cli(c: TileCompression) -> &'static str {
+	match c {
+		TileCompression::Uncompressed => "uncompressed",
+		TileCompression::Gzip => "gzip",
+		TileCompression::Brotli => "brotli",
+	}
+}
+
+/// Option interplay through the REAL binary: `versatiles convert` with
+/// {--min-zoom, --max-zoom, --bbox, --bbox-border} × {--flip-y} × {--swap-xy} × {--compress} ×
+/// {--force-recompress} × {--override-input-compression} × source container × target container
+/// vs. the library conversion with the transcribed options: same outcome class, same tiles (decoded),
+/// same declared output compression; invalid/malformed `--bbox` must be an error, never a panic.
 fn binary_cases(out: &mut Out, ctx: &mut Ctx, rng: &mut Rng, n: usize) {
 	let Some(bin) = vth_bin() else {
 		out.notes.push("VTH_BIN not available: binary tie of the option handling skipped".into());
@@ -1258,26 +1540,62 @@ fn binary_cases(out: &mut Out, ctx: &mut Ctx, rng: &mut Rng, n: usize) {
 		Ok(d) => String::from_utf8_lossy(d.as_slice()).to_string(),
 		Err(_) => "undecodable".to_string(),
 	};
+	// malformed --bbox strings: an error message, exit code != 0, no panic
+	for (k, bad) in ["1,2,3", "1,2,3,4,5", "a,b,c,d", "1;2;x;4", "", "10,0,-10,5", "0,0,5,95", "nan,0,1,1"].iter().enumerate() {
+		if k >= n {
+			break;
+		}
+		let a: Vec<String> = vec!["convert".into(), format!("--bbox={bad}"), "/nonexistent-in.versatiles".into(), ctx.dir.join("never.tar").to_str().unwrap().into()];
+		// the input is opened first: give it a real (tiny) container so that option handling is reached
+		let src_path = target_path(ctx, "versatiles");
+		let one = Scen { tiles: vec![(0, 0, 0)], cover: TileBBoxPyramid::new_full(0), f: false, s: false, req: None, src_comp: TileCompression::Gzip, dst_comp: None, format: TileFormat::JSON, force: false };
+		ctx.rt.block_on(convert_tiles_container(one.source().boxed(), TilesConverterParameters::new_default(), &src_path)).unwrap();
+		let a = vec![a[0].clone(), a[1].clone(), src_path.clone(), a[3].clone()];
+		let (code, stderr) = run_bin(&bin, &a);
+		let panicked = stderr.contains("panicked at");
+		let ok = !panicked && code != Some(0);
+		out.eval(&format!("C06 cli-bbox {bad}"), true);
+		out.count("binary_malformed_bbox");
+		out.oracle(
+			ok,
+			&format!("C06 binary: `versatiles convert --bbox={bad}` {} (exit {code:?}): {}", if panicked { "panicked" } else { "was accepted" }, trunc(stderr.lines().find(|l| l.contains("panicked")).unwrap_or(""), 160)),
+			json!({"kind": if panicked { "binary_panic_malformed_bbox" } else { "binary_accepts_malformed_bbox" }}),
+			json!({"case": format!("C06 cli-bbox {bad}"), "cmd": a.join(" ")}),
+		);
+		cleanup(&src_path);
+		cleanup(a[3].as_str());
+	}
 	for i in 0..n {
-		// dense low-zoom source so that the output coverage shows the requested pyramid itself
+		// dense low-zoom source so that the output shows the requested pyramid itself
 		let zmax = rng.range(1, 3) as u8;
 		let mut tiles = vec![];
 		for z in 0..=zmax {
 			for y in 0..(1u32 << z) {
 				for x in 0..(1u32 << z) {
-					tiles.push((x, y, z));
+					if z < zmax || rng.chance(7, 8) {
+						tiles.push((x, y, z));
+					}
 				}
 			}
 		}
 		let mut o = gen_opts(rng, &tiles);
-		if i % 5 == 4 {
+		if i % 7 == 6 {
 			o.bbox = Some(match rng.below(3) {
 				0 => [10.0, 0.0, -10.0, 5.0],
 				1 => [0.0, 0.0, 5.0, 95.0],
 				_ => [0.0, 50.0, 5.0, 40.0],
 			});
 		}
-		let (f, s) = (i & 1 == 1, i & 2 == 2);
+		// pairwise-ish: every option independently on/off
+		let (f, s) = (rng.chance(1, 2), rng.chance(1, 2));
+		let stored = *rng.pick(&COMPS);
+		let compress_opt: Option<TileCompression> = if rng.chance(1, 2) { Some(*rng.pick(&COMPS)) } else { None };
+		let force = rng.chance(1, 3);
+		// a mislabelled source: a tar whose members carry `stored`-compressed payloads but no compression
+		// extension, repaired with --override-input-compression
+		let mislabelled = stored != TileCompression::Uncompressed && rng.chance(1, 3);
+		let src_kind = if mislabelled { "tar" } else { *rng.pick(&["versatiles", "tar", "pmtiles"]) };
+		let dst_kind = *rng.pick(&["tar", "versatiles", "pmtiles", "dir"]);
 		let cover = {
 			let mut p = TileBBoxPyramid::new_empty();
 			for c in &tiles {
@@ -1285,10 +1603,16 @@ fn binary_cases(out: &mut Out, ctx: &mut Ctx, rng: &mut Rng, n: usize) {
 			}
 			p
 		};
-		let mut sc = Scen { tiles, cover, f, s, req: None, src_comp: TileCompression::Gzip, dst_comp: None, format: TileFormat::JSON };
-		let src_path = target_path(ctx, "versatiles");
-		ctx.rt.block_on(convert_tiles_container(sc.source().boxed(), TilesConverterParameters::new_default(), &src_path)).unwrap();
-		let dst_bin = target_path(ctx, "tar");
+		let blobs: Vec<(TileCoord3, Blob)> = tiles.iter().map(|c| (TileCoord3::new(c.0, c.1, c.2).unwrap(), compress(Blob::from(payload(c)), &stored).unwrap())).collect();
+		let declared = if mislabelled { TileCompression::Uncompressed } else { stored };
+		let src = MemSource::new("cli", TileFormat::JSON, declared, blobs).with_pyramid(cover);
+		let src_path = target_path(ctx, src_kind);
+		ctx.rt.block_on(async {
+			let mut s2 = src.clone();
+			versatiles_container::write_to_filename(&mut s2, &src_path).await
+		})
+		.unwrap();
+		let dst_bin = target_path(ctx, dst_kind);
 		let mut a: Vec<String> = vec!["convert".into()];
 		a.extend(o.cli());
 		if f {
@@ -1297,48 +1621,78 @@ fn binary_cases(out: &mut Out, ctx: &mut Ctx, rng: &mut Rng, n: usize) {
 		if s {
 			a.push("--swap-xy".into());
 		}
+		if let Some(c) = compress_opt {
+			a.push(format!("--compress={}", comp_cli(c)));
+		}
+		if force {
+			a.push("--force-recompress".into());
+		}
+		if mislabelled {
+			a.push(format!("--override-input-compression={}", comp_cli(stored)));
+		}
 		a.push(src_path.clone());
 		a.push(dst_bin.clone());
 		let (code, stderr) = run_bin(&bin, &a);
 		let panicked = stderr.contains("panicked at");
 		let t = catch(|| get_bbox_pyramid_t(&o));
 		let line = format!("{} # versatiles {}", o.case(), a[..a.len() - 2].join(" "));
+		// the library conversion with the same parameters
+		let lib = |req: Option<TileBBoxPyramid>| -> Result<anyhow::Result<(BTreeMap<C, String>, TileCompression, bool)>, String> {
+			catch(|| {
+				ctx.rt.block_on(async {
+					let mut rd = get_reader(&src_path).await?;
+					if mislabelled {
+						rd.override_compression(stored);
+					}
+					let cr = TilesConvertReader::new_from_reader(rd, TilesConverterParameters::new(compress_opt, req, force, f, s))?;
+					let oc = cr.get_parameters().tile_compression;
+					let mut m = BTreeMap::new();
+					for b in cr.get_parameters().bbox_pyramid.iter_levels() {
+						for (c, bl) in cr.get_bbox_tile_stream(b.clone()).await.collect().await {
+							m.insert((c.x, c.y, c.z), dec(bl, oc));
+						}
+					}
+					Ok((m, oc, cr.get_parameters().bbox_pyramid.is_empty()))
+				})
+			})
+		};
 		let mut e: Option<(String, &str)> = None;
 		if panicked {
 			e = Some((format!("`versatiles {}` panicked: {}", a.join(" "), trunc(stderr.lines().find(|l| l.contains("panicked")).unwrap_or(""), 200)), "binary_panic"));
 		} else {
 			match (&t, code) {
-				(Ok(Ok(req)), Some(0)) => {
-					sc.req = req.clone();
-					let want: BTreeMap<C, String> = match new_reader(&sc) {
-						Ok(Ok(rd)) => {
+				(Ok(Ok(req)), Some(0)) => match lib(req.clone()) {
+					Ok(Ok((want, want_comp, _))) => match catch(|| {
+						ctx.rt.block_on(async {
+							let rd = get_reader(&dst_bin).await?;
+							let par = rd.get_parameters().clone();
 							let mut m = BTreeMap::new();
-							for b in rd.get_parameters().bbox_pyramid.iter_levels() {
-								for (c, bl) in ctx.rt.block_on(async { rd.get_bbox_tile_stream(b.clone()).await.collect().await }) {
-									m.insert((c.x, c.y, c.z), sc.decode(bl));
+							for b in par.bbox_pyramid.iter_levels() {
+								for (c, bl) in rd.get_bbox_tile_stream(b.clone()).await.collect().await {
+									m.insert((c.x, c.y, c.z), dec(bl, par.tile_compression));
 								}
 							}
-							m
-						}
-						_ => BTreeMap::new(),
-					};
-					match catch(|| read_all(ctx, &dst_bin, &dec)) {
-						Ok(Ok((_, items, _))) => {
-							let got: BTreeMap<C, String> = items.into_iter().collect();
+							anyhow::Ok((m, par.tile_compression))
+						})
+					}) {
+						Ok(Ok((got, got_comp))) => {
 							if got != want {
 								let d = want.iter().find(|(c, p)| got.get(*c) != Some(*p)).map(|(c, _)| *c).or(got.keys().find(|c| !want.contains_key(*c)).cloned());
-								e = Some((format!("binary output ({} tiles) differs from the in-process conversion with the transcribed options ({} tiles), first difference at {:?}", got.len(), want.len(), d), "binary_differs"));
+								e = Some((format!("binary output ({} tiles) differs from the library conversion with the same options ({} tiles), first difference at {:?}: binary {:?}, library {:?}", got.len(), want.len(), d, d.and_then(|c| got.get(&c)), d.and_then(|c| want.get(&c))), "binary_differs"));
+							} else if got_comp != want_comp && !got.is_empty() {
+								e = Some((format!("binary output declares compression {got_comp:?}, the library conversion {want_comp:?}"), "binary_compression"));
+							} else if got.values().any(|p| p == "undecodable") {
+								e = Some(("binary output holds a tile that does not decode under the declared compression".into(), "binary_undecodable"));
 							}
 						}
-						// an empty selection gives an empty tar, which the tar reader refuses ("no tiles found")
-						_ if want.is_empty() => {}
+						_ if want.is_empty() => {} // empty selection: tar/dir readers refuse an empty container
 						_ => e = Some(("binary output cannot be read back".into(), "binary_unreadable")),
-					}
-				}
+					},
+					_ => e = Some(("library conversion failed although the binary succeeded".into(), "library_failed")),
+				},
 				(Ok(Ok(req)), _) => {
 					// the binary may legitimately fail when the selection is empty (writers reject empty pyramids)
-					sc.req = req.clone();
-					let empty = matches!(new_reader(&sc), Ok(Ok(rd)) if rd.get_parameters().bbox_pyramid.is_empty());
+					let empty = matches!(lib(req.clone()), Ok(Ok((_, _, true))));
 					if !empty {
 						e = Some((format!("binary failed (exit {code:?}) although the options are valid and the selection is not empty: {}", trunc(&stderr, 200)), "binary_failed"));
 					}
@@ -1350,6 +1704,13 @@ fn binary_cases(out: &mut Out, ctx: &mut Ctx, rng: &mut Rng, n: usize) {
 		}
 		out.eval(&line, o.bbox.is_some());
 		out.count("binary_convert_runs");
+		out.count(&format!("binary_src_{src_kind}"));
+		out.count(&format!("binary_dst_{dst_kind}"));
+		for (k, on) in [("flip", f), ("swap", s), ("compress", compress_opt.is_some()), ("force", force), ("override_input", mislabelled), ("bbox", o.bbox.is_some()), ("border", o.border.is_some()), ("minzoom", o.min_zoom.is_some()), ("maxzoom", o.max_zoom.is_some())] {
+			if on {
+				out.count(&format!("binary_opt_{k}"));
+			}
+		}
 		out.oracle(e.is_none(), &format!("C06 binary: {}", e.as_ref().map(|x| x.0.clone()).unwrap_or_default()), json!({"kind": e.as_ref().map(|x| x.1)}), json!({"case": o.case(), "cmd": a.join(" ")}));
 		cleanup(&src_path);
 		cleanup(&dst_bin);
@@ -1446,7 +1807,7 @@ fn serve_one(out: &mut Out, ctx: &mut Ctx, bin: &Path, f: bool, s: bool, tiles_a
 		for c in tiles {
 			cover.include_coord(&TileCoord3::new(c.0, c.1, c.2).unwrap());
 		}
-		let sc = Scen { tiles: tiles.to_vec(), cover, f, s, req: None, src_comp: TileCompression::Uncompressed, dst_comp: None, format: TileFormat::JSON };
+		let sc = Scen { tiles: tiles.to_vec(), cover, f, s, req: None, src_comp: TileCompression::Uncompressed, dst_comp: None, format: TileFormat::JSON, force: false };
 		let src_path = target_path(ctx, "versatiles");
 		ctx.rt.block_on(convert_tiles_container(sc.source().boxed(), TilesConverterParameters::new_default(), &src_path)).unwrap();
 		let dst = target_path(ctx, "tar");
@@ -1553,7 +1914,7 @@ fn replay_line(out: &mut Out, ctx: &mut Ctx, line: &str) {
 	}
 	let flags = |s: &str| (s.as_bytes()[0] == b'1', s.as_bytes()[1] == b'1');
 	let opt_pyr = |s: &str| if s == "-" { None } else { Some(parse_pyr(s)) };
-	let mk = |f: bool, s: bool, req: Option<TileBBoxPyramid>, cover: TileBBoxPyramid, tiles: Vec<C>| Scen { tiles, cover, f, s, req, src_comp: TileCompression::Gzip, dst_comp: None, format: TileFormat::JSON };
+	let mk = |f: bool, s: bool, req: Option<TileBBoxPyramid>, cover: TileBBoxPyramid, tiles: Vec<C>| Scen { tiles, cover, f, s, req, src_comp: TileCompression::Gzip, dst_comp: None, format: TileFormat::JSON, force: false };
 	let cover_of = |tiles: &[C]| {
 		let mut p = TileBBoxPyramid::new_empty();
 		for c in tiles {
@@ -1599,6 +1960,13 @@ fn replay_line(out: &mut Out, ctx: &mut Ctx, line: &str) {
 			if t[4] != "-" {
 				do_stream(out, ctx, &sc, &parse_box(t[4]));
 			}
+		}
+		"reuse" if t.len() == 6 => {
+			let target = TARGETS.iter().find(|x| **x == t[2]).copied().unwrap_or("tar");
+			let (f, s) = flags(t[3]);
+			let mk = |spec: &str| -> BTreeMap<C, Vec<u8>> { parse_tiles(&spec[2..]).into_iter().map(|c| (c, payload(&c))).collect() };
+			let (format, comp) = if target == "mbtiles" { (TileFormat::PBF, TileCompression::Gzip) } else { (TileFormat::JSON, TileCompression::Gzip) };
+			reuse_one(out, ctx, &vth_bin(), target, format, comp, f, s, &mk(t[4]), &mk(t[5]), true);
 		}
 		"fault" if t.len() == 8 => {
 			let (f, s) = flags(t[2]);
@@ -1653,7 +2021,7 @@ pub fn run(args: &Args) {
 			for c in &tiles {
 				cover.include_coord(&TileCoord3::new(c.0, c.1, c.2).unwrap());
 			}
-			let sc = Scen { tiles: tiles.clone(), cover, f: fl & 1 == 1, s: fl & 2 == 2, req: None, src_comp: COMPS[i % 3], dst_comp: None, format: TileFormat::JSON };
+			let sc = Scen { tiles: tiles.clone(), cover, f: fl & 1 == 1, s: fl & 2 == 2, req: None, src_comp: COMPS[i % 3], dst_comp: None, format: TileFormat::JSON, force: false };
 			scenario(&mut out, &mut ctx, &mut rng, &sc, None, Some(TARGETS[(i + fl) % 5]));
 		}
 	}
@@ -1672,7 +2040,9 @@ pub fn run(args: &Args) {
 	for i in 0..args.n(120, 1500) {
 		fault_case(&mut out, &mut ctx, &mut rng, i);
 	}
-	binary_cases(&mut out, &mut ctx, &mut rng, args.n(24, 200));
+	edge_sweep(&mut out, &mut ctx, &mut rng, args.thorough());
+	reuse_and_payload_cases(&mut out, &mut ctx, &mut rng, args.n(25, 300));
+	binary_cases(&mut out, &mut ctx, &mut rng, args.n(40, 400));
 	if args.thorough() {
 		serve_cases(&mut out, &mut ctx, &mut rng, 40);
 	} else {
